@@ -113,7 +113,9 @@ def install(C, E, world):
         if f in ('prev_events', 'auth_events'):
             return dta[f + '_outcomes']()
         if f == 'redacts':
-            return [(TRUE, dta.get('redacts', NONE))]
+            if 'redacts_outcomes' in dta:
+                return dta['redacts_outcomes']()
+            return [(TRUE, NONE)]
         raise Inconclusive('Event::' + f)
     OV.append((re.compile(r'^<.+ as (?:events::traits::|ruma_state_res::)?Event>::(\w+)$'), event_model))
 
